@@ -123,7 +123,7 @@ def eval_access(paths, present, ln, off, szt, alt):
         if t[0] == 'load0' and 'promoted' in fmt(t):
             return 0
         raise Unfoldable(fmt(t)[:100])
-    fo = Folder(leaf, generic={'T': szt})
+    fo = Folder(leaf, generic={'T': szt, 'alignof:T': alt})
 
     class FO(Folder):
         pass
